@@ -1,7 +1,138 @@
 import Firefly.Model.Kfmt
+import Firefly.Proof.Kfmt
+/-!
+# C15 — Kernel printf output is exact, bounded, and allocation-free
+
+Statement (properties.jsonl): for every format string made of literal text, `%%` and the supported
+verbs with an optional decimal width, the kernel formatter writes exactly: literal text unchanged,
+`%%` as one percent sign, integers of every built-in integer type in base 8/10/16 with correct
+magnitude and sign, left-padded to the width (spaces for decimal, zeros for octal/hex; integer
+widths above 31 count as 31), strings and byte slices left-padded with spaces to the width,
+booleans as true/false, and a fixed marker for each missing, surplus or wrongly-typed argument.
+For any format string and arguments whatsoever it never panics, and formatting performs no heap
+allocation, so it is usable before the allocator exists.
+
+The theorems are about the model `Firefly.Kfmt` (`Model/Kfmt.lean`), whose constants
+(`maxBufSize`, `len(numFmtBuf)`, the marker strings) are regenerated from the compiled Go code on
+every run (`Gen/C15.lean`).  `buf` is the content of the global scratch buffer `numFmtBuf` when the
+call starts: every theorem holds for *every* content, i.e. whatever earlier calls left there.
+
+Not proved here (measured by the harness, see `level_note`): "no heap allocation" is a property of
+the Go compiler's escape analysis, not of any executable model.
+-/
 namespace Firefly.C15
 open Firefly.Kfmt Firefly.Gen.C15
 
-theorem facts_partial : maxBufSize = 32 ∧ numFmtBufLen = 33 := by decide
+/-- **fmtInt_in_bounds** — `fmtInt` never indexes outside `numFmtBuf`: every load, store and the
+final slice expression of the model is bounds-checked (out of range = `.panic`), and for every
+argument whatsoever (all ten integer kinds with any value — all 2^64 magnitudes, both signs, incl.
+`MinInt64` — and every non-integer), every base and every width (any Go `int`, also negative or
+huge) the result is `.ok`, and the buffer keeps its length. -/
+theorem fmtInt_in_bounds (buf : List Byte) (a : Arg) (b : Base) (padLen : Int)
+    (hbuf : buf.length = numFmtBufLen) :
+    ∃ buf' out, fmtInt buf a b padLen = .ok (buf', out) ∧ buf'.length = numFmtBufLen :=
+  fmtInt_total buf a b padLen hbuf
+
+/-- **fmtInt_exact** — for an argument that its Go type can hold, `fmtInt` writes one chunk:
+`renderIntArg` = sign and digits of the value in the base, padded as the property says (blanks in
+front of sign+digits for decimal; zeros between sign and digits for octal/hex; widths above
+`maxBufSize-1 = 31` count as 31; a negative width is no width), or the wrong-type marker. -/
+theorem fmtInt_exact (buf : List Byte) (a : Arg) (b : Base) (padLen : Int)
+    (hbuf : buf.length = numFmtBufLen) (hr : a.inRange = true) :
+    ∃ buf', fmtInt buf a b padLen = .ok (buf', renderIntArg b padLen.toNat a) ∧
+      buf'.length = numFmtBufLen :=
+  Firefly.Kfmt.fmtInt_exact buf a b padLen hbuf hr
+
+/-- **never_panics** — for arbitrary format bytes and arbitrary arguments (any number, any type,
+any value) and any scratch-buffer content, `Fprintf` completes. -/
+theorem never_panics (buf : List Byte) (format : List Byte) (args : List Arg)
+    (hbuf : buf.length = numFmtBufLen) :
+    ∃ writes, fprintf buf format args = .ok writes :=
+  scan_total format none args buf hbuf
+
+/-- **exact** — for every format of the supported grammar (`parse` succeeds: literal bytes, `%%`,
+`%[decimal width]{d,x,o,s,t}`, width below 2^63) and every argument list (too short, too long and
+wrongly typed included), the concatenation of everything `Fprintf` writes is exactly the
+specification's output: literal text, one `%`, `render` of each argument, `(MISSING)`,
+`%!(WRONGTYPE)`, and one `%!(EXTRA)` per surplus argument. -/
+theorem exact (buf : List Byte) (format : List Byte) (args : List Arg) (pieces : List Piece)
+    (hbuf : buf.length = numFmtBufLen) (hargs : ∀ a ∈ args, a.inRange = true)
+    (hfmt : parse .text format = some pieces) :
+    ∃ writes, fprintf buf format args = .ok writes ∧ writes.flatten = specOutput pieces args :=
+  scan_exact format .text args buf pieces hbuf hargs (by decide) hfmt
+
+/-- **magnitude** — the digit string the specification (hence, by `exact`, the formatter) prints
+denotes the magnitude: its value in the base is `n`, every character is a digit below the base, and
+there is no leading zero except for `0` itself. -/
+theorem magnitude (b : Base) (n : Nat) :
+    ofDigits b.divider (digitsOf b.divider n) = n ∧
+    (∀ c ∈ digitsOf b.divider n, isDigitCh c = true ∧ digitVal c < b.divider) ∧
+    (0 < n → ∀ h, digitVal ((digitsOf b.divider n).head h) ≠ 0) := by
+  obtain ⟨hd1, hd16⟩ := base_bounds b
+  have hpow : n < b.divider ^ (n + 1) :=
+    calc n < b.divider ^ n := Nat.lt_pow_self hd1
+      _ ≤ b.divider ^ (n + 1) := Nat.pow_le_pow_right (by omega) (by omega)
+  refine ⟨ofDigits_digitsOf _ hd1 hd16 n, ?_, ?_⟩
+  · intro c hc
+    unfold digitsOf at hc
+    exact digitsLE_valid _ (by omega) hd16 n n c (List.mem_reverse.1 hc)
+  · intro hpos h
+    unfold digitsOf at h ⊢
+    rw [List.head_reverse]
+    exact digitsLE_last _ hd1 hd16 n n hpos hpos _
+
+/-- **bounded** — an integer is written as one chunk of at most `maxBufSize` bytes, whatever the
+width. -/
+theorem bounded (b : Base) (width : Nat) (neg : Bool) (mag : Nat) (h : mag < 2 ^ 64) :
+    (renderInt b width neg mag).length ≤ maxBufSize :=
+  renderInt_length_le b width neg mag h
+
+/-- **padded** — the rendering of an integer has at least `min width 31` bytes (it is padded to
+the width, widths above 31 counting as 31). -/
+theorem padded (b : Base) (width : Nat) (neg : Bool) (mag : Nat) :
+    min width (maxBufSize - 1) ≤ (renderInt b width neg mag).length := by
+  cases b <;> cases neg <;> simp [renderInt, leftPad] <;> omega
+
+/-- the generated facts the proofs rely on; a change of either constant in fmt.go that breaks the
+bounds argument breaks this theorem (and `fmtInt_in_bounds`) -/
+theorem buffer_facts :
+    22 ≤ maxBufSize ∧ maxBufSize + 1 ≤ numFmtBufLen ∧ numFmtBufLen ≤ numFmtBufCap := by decide
+
+/-- Quirk of the code, outside the property's domain (widths 0..10^6), recorded so that nobody is
+surprised: the string padding count `padLen - len(s)` is computed in a Go `int`, so the wrapped
+width `-2^63` (format `%9223372036854775808s`) with a 3-byte string asks for `2^63 - 3` blanks. -/
+theorem wrapped_string_width_quirk :
+    (fmtString (.str [97, 98, 99]) (-2 ^ 63)).length = 2 ^ 63 - 3 + 3 := by
+  simp [fmtString, fmtRepeat, wrap64]
+
+/-! ## Non-vacuity: concrete instances of the hypotheses and of the behaviour -/
+
+/-- a supported format: `"a%%%5d|%s"` -/
+example : parse .text [97, 37, 37, 37, 53, 100, 124, 37, 115]
+    = some [.lit 97, .pct, .verb .d 5, .lit 124, .verb .s 0] := by decide
+
+/-- an unsupported one: `"%z"` -/
+example : parse .text [37, 122] = none := by decide
+
+example : (Arg.sgn .i64 (-9223372036854775808)).inRange = true := by decide
+example : (Arg.sgn .i8 128).inRange = false := by decide
+example : (List.replicate numFmtBufLen (0 : Byte)).length = numFmtBufLen := by decide
+
+/-- `%5d` of int8(-7) is `"   -7"`; `%5x` of it is `"-00007"`; width 40 counts as 31 -/
+example : renderIntArg .b10 5 (.sgn .i8 (-7)) = [32, 32, 32, 45, 55] := by decide
+example : renderIntArg .b16 5 (.sgn .i8 (-7)) = [45, 48, 48, 48, 48, 55] := by decide
+example : (renderIntArg .b8 40 (.uns .u64 8)).length = 31 := by decide
+
+/-- MinInt64 in decimal -/
+example : renderIntArg .b10 0 (.sgn .i64 (-9223372036854775808))
+    = [45, 57, 50, 50, 51, 51, 55, 50, 48, 51, 54, 56, 53, 52, 55, 55, 53, 56, 48, 56] := by decide
+
+/-- the model, run: `Fprintf("%zd", int(5))` writes `%!(NOVERB)` and then still formats the 5;
+a trailing `%12` writes nothing; a missing argument writes the marker -/
+example : fprintf (List.replicate 33 0) [37, 122, 100] [.sgn .int 5] = .ok [errNoVerb, [53]] := by decide
+example : fprintf (List.replicate 33 0) [120, 37, 49, 50] [] = .ok [[120]] := by decide
+example : fprintf (List.replicate 33 0) [37, 100] [] = .ok [errMissingArg] := by decide
+example : fprintf (List.replicate 33 0) [37, 51, 50, 100] [.sgn .int (-1)]
+    = .ok [List.replicate 29 32 ++ [45, 49]] := by decide
 
 end Firefly.C15
